@@ -7,14 +7,20 @@ Line protocol of the `options` (C20) and `optmodes` (C21) engines.
          <nX> (X field)* K i0 … i8
      field = name num kind card map presence oneof targets intro removed full extendee
   opt <p2|p3|e23> <element> <n> <statement>*
-     element   = file | message | oneof | extrange | enum | enumvalue | service | method
-               | field:<kind>:<label> | extfield:<kind>:<label>
+     element   = file | message | oneof | enum | enumvalue | service | method
+               | extrange | extrange:<2..4>  (that many ranges in ONE `extensions` statement, sharing the clause)
+               | nmessage | nenum | nenumvalue | groupmsg  (nested in a message; body of a group)
+               | mapfield | groupfield
+               | <f>:<kind>:<label>  with <f> = field | extfield | oneoffield | nfield | nextfield
      statement = <nparts> (n:<name> | x:<fqn>)* <value>
      value     = u:<dec> | i:<dec> | f:<bits> | nf:<bits> | bu:<bits> | bn:<bits> | id:<ident> | ni:<ident>
                | s:<hex> | { (<fname> <:|_> <value>)* } | [ <value>* ]
   (see harness/engines/options.go for the meaning; the Go side renders the tokens to proto source)
 
 Answers:  options  → result of the strict run;  optmodes → S=<r> L=<r> U=<r> C=<r>.
+A result describes the first element; with several elements sharing the clause it continues `n=<k>`
+and, if the implementation left one of them different from the first, `DIFF <i>:<tree>,r=<rest>` (the
+model interprets each element from the same statements, so it never prints DIFF).
 -/
 import PCV.Engine
 import PCV.Util.Wire
